@@ -1,0 +1,101 @@
+/*
+ * Verification trace hooks.  Everything in this file is compiled only with
+ * -DOPENSMT_VERIF_TRACE; without the define the header is empty and no hook site
+ * expands to code.  With the define, events are written (one JSON object per line)
+ * to the file named by the environment variable OPENSMT_VERIF_TRACE; when the
+ * variable is not set the hooks do nothing.
+ */
+#ifndef OPENSMT_VERIFTRACE_H
+#define OPENSMT_VERIFTRACE_H
+
+#ifdef OPENSMT_VERIF_TRACE
+
+#include <cstdio>
+#include <cstdlib>
+#include <mutex>
+#include <sstream>
+#include <string>
+
+namespace opensmt::veriftrace {
+
+inline FILE * out() {
+    static FILE * f = []() -> FILE * {
+        char const * path = std::getenv("OPENSMT_VERIF_TRACE");
+        return path ? std::fopen(path, "a") : nullptr;
+    }();
+    return f;
+}
+
+inline bool on() { return out() != nullptr; }
+
+inline void emit(std::string const & line) {
+    static std::mutex m;
+    std::lock_guard<std::mutex> lock(m);
+    FILE * f = out();
+    if (not f) { return; }
+    std::fputs(line.c_str(), f);
+    std::fputc('\n', f);
+    std::fflush(f);
+}
+
+inline std::string quote(std::string const & s) {
+    std::string r = "\"";
+    for (char c : s) {
+        if (c == '"' or c == '\\') { r += '\\'; r += c; }
+        else if (c == '\n') { r += "\\n"; }
+        else if (static_cast<unsigned char>(c) < 0x20) { r += ' '; }
+        else { r += c; }
+    }
+    r += '"';
+    return r;
+}
+
+// origin of the clauses currently handed to CoreSMTSolver::addOriginalClause_
+inline char const *& origin() {
+    static thread_local char const * o = "input";
+    return o;
+}
+
+struct OriginScope {
+    char const * saved;
+    explicit OriginScope(char const * o) : saved(origin()) { origin() = o; }
+    ~OriginScope() { origin() = saved; }
+};
+
+// poll hook for asynchronous-stop experiments: called from CoreSMTSolver::okContinue
+inline long & pollCount() {
+    static thread_local long n = 0;
+    return n;
+}
+using PollCallback = void (*)(long);
+inline PollCallback & pollCallback() {
+    static PollCallback cb = nullptr;
+    return cb;
+}
+inline void poll() {
+    long n = ++pollCount();
+    if (pollCallback()) { pollCallback()(n); }
+}
+
+// literals as signed integers: var+1, negative when the literal is negated
+template<typename LitT>
+inline int litToInt(LitT l) { return sign(l) ? -(var(l) + 1) : (var(l) + 1); }
+
+template<typename LitVec>
+inline std::string litsToJson(LitVec const & lits) {
+    std::ostringstream os;
+    os << '[';
+    bool first = true;
+    for (auto l : lits) {
+        if (not first) { os << ','; }
+        first = false;
+        os << litToInt(l);
+    }
+    os << ']';
+    return os.str();
+}
+
+} // namespace opensmt::veriftrace
+
+#endif // OPENSMT_VERIF_TRACE
+#endif // OPENSMT_VERIFTRACE_H
